@@ -436,7 +436,7 @@ def run(ctx):
     rig = Rig(ctx)
     g = rig.g
     rng = ctx.rng
-    ncases = ctx.pick({"quick": 60, "thorough": 1500})
+    ncases = ctx.pick({"quick": 60, "thorough": 500})
     try:
         for k in range(ncases):
             if not ctx.budget_ok():
